@@ -157,6 +157,25 @@ def run(run: common.Run):
         corrupted_tile_leg(run, tmp)
 
 
+VERBOSITY = [[], ['-v'], ['-q'], ['-v', '-v'], ['-v', '-q', '-v']]
+
+
+class _logging_restored:
+    """the `homonim` group configures the package logger and warnings.showwarning on every invocation: put both back afterwards"""
+
+    def __enter__(self):
+        import logging
+        lg = logging.getLogger('homonim')
+        self.state = (lg, lg.level, list(lg.handlers), warnings.showwarning)
+
+    def __exit__(self, *exc):
+        lg, level, handlers, show = self.state
+        lg.setLevel(level)
+        lg.handlers[:] = handlers
+        warnings.showwarning = show
+        return False
+
+
 def cli_faults(run, tmp, pair, bsig, model, kernel, mbm, njobs):
     """CLI: an exception in any block gives a non-zero exit status; exit 0 implies every block was written"""
     from click.testing import CliRunner
@@ -165,9 +184,13 @@ def cli_faults(run, tmp, pair, bsig, model, kernel, mbm, njobs):
     orig = RasterFuse._process_block
     outdir = tmp / 'cli'
     outdir.mkdir(exist_ok=True)
+    nrun = 0
     for k in ([None, 0, njobs - 1] if run.quick() else [None] + list(range(njobs))):
         for T in (1, 3):
             cnt = {'n': 0}
+            # the global verbosity flags: what is logged, and how, has no bearing on the exit status
+            vflags = VERBOSITY[nrun % len(VERBOSITY)]
+            nrun += 1
 
             def pb(self, *a, **kw):
                 i = cnt['n']
@@ -177,12 +200,14 @@ def cli_faults(run, tmp, pair, bsig, model, kernel, mbm, njobs):
                 return orig(self, *a, **kw)
             RasterFuse._process_block = pb
             try:
-                res = CliRunner().invoke(cli.cli, ['fuse', str(pair.src_path), str(pair.ref_path), '-m', model, '-k', str(kernel[0]),
-                                                   str(kernel[1]), '-od', str(outdir), '-o', '-nbo', '-t', str(T), '-mbm', repr(mbm), '-pi'])
+                with _logging_restored():
+                    res = CliRunner().invoke(cli.cli, vflags + ['fuse', str(pair.src_path), str(pair.ref_path), '-m', model, '-k',
+                                                               str(kernel[0]), str(kernel[1]), '-od', str(outdir), '-o', '-nbo', '-t',
+                                                               str(T), '-mbm', repr(mbm), '-pi'])
             finally:
                 RasterFuse._process_block = orig
             run.evaluations += 1
-            case = dict(i=10**6 + (k if k is not None else -1) * 10 + T, op='cli fuse', fail_block=k, threads=T)
+            case = dict(i=10**6 + (k if k is not None else -1) * 10 + T, op='cli fuse', fail_block=k, threads=T, verbosity=vflags)
             run.hist['cli runs'] += 1
             if k is not None and res.exit_code == 0:
                 run.fail(case, f'CLI exited 0 although block {k} failed', signature=dict(kind='cli-exit-zero'))
@@ -207,9 +232,12 @@ def cli_compare_stats_faults(run, tmp, pair, mbm):
         base = fusion.run_fuse(pair.src_path, pair.ref_path, tmp / 'c09_clist.tif', model='gain-offset', kernel_shape=(3, 3), threads=1,
                                param=True, out_profile=dict(creation_options=dict(tiled=True, blockxsize=16, blockysize=16)))
         orig_read, orig_enter = RasterCompare.read, ParamStats.__enter__
+        nrun = 0
         for k in (None, 0, 2):
             for T in (1, 2):
                 cnt = {'n': 0}
+                vflags = VERBOSITY[(nrun + 1) % len(VERBOSITY)]
+                nrun += 1
 
                 failed = {'v': False}
 
@@ -231,15 +259,16 @@ def cli_compare_stats_faults(run, tmp, pair, mbm):
                 import threading
                 before = set(threading.enumerate())
                 try:
-                    fin, res = sc.run_with_watchdog(lambda: CliRunner().invoke(
-                        cli.cli, ['compare', str(pair.src_path), str(pair.ref_path), '-t', str(T), '-mbm', repr(mbm),
-                                  '--output', str(tmp / 'c09_cmp.json')]), timeout=60)
+                    with _logging_restored():
+                        fin, res = sc.run_with_watchdog(lambda: CliRunner().invoke(
+                            cli.cli, vflags + ['compare', str(pair.src_path), str(pair.ref_path), '-t', str(T), '-mbm', repr(mbm),
+                                               '--output', str(tmp / 'c09_cmp.json')]), timeout=60)
                     late = sc.stragglers(before) if fin else []
                 finally:
                     RasterCompare.read = orig_read
                 run.evaluations += 1
                 run.hist['cli compare / stats runs'] += 1
-                case = dict(i=4 * 10**6 + (k if k is not None else -1) * 10 + T, op='cli compare', fail_block=k, threads=T)
+                case = dict(i=4 * 10**6 + (k if k is not None else -1) * 10 + T, op='cli compare', fail_block=k, threads=T, verbosity=vflags)
                 if not fin:
                     run.fail(case, '`homonim compare` hung', signature=dict(kind='hang', op='cli compare'))
                     run.hung = True
@@ -273,13 +302,14 @@ def cli_compare_stats_faults(run, tmp, pair, mbm):
                         return r
                     ParamStats.__enter__ = enter
                     try:
-                        fin, res = sc.run_with_watchdog(lambda: CliRunner().invoke(
-                            cli.cli, ['stats', str(base.param_path), '--output', str(tmp / 'c09_st.json')]), timeout=60)
+                        with _logging_restored():
+                            fin, res = sc.run_with_watchdog(lambda: CliRunner().invoke(
+                                cli.cli, vflags + ['stats', str(base.param_path), '--output', str(tmp / 'c09_st.json')]), timeout=60)
                     finally:
                         ParamStats.__enter__ = orig_enter
                     run.evaluations += 1
                     run.hist['cli compare / stats runs'] += 1
-                    case = dict(i=5 * 10**6 + (k if k is not None else -1) * 10 + T, op='cli stats', method=meth, fail_call=k)
+                    case = dict(i=5 * 10**6 + (k if k is not None else -1) * 10 + T, op='cli stats', method=meth, fail_call=k, verbosity=vflags)
                     if not fin:
                         run.fail(case, '`homonim stats` hung', signature=dict(kind='hang', op='cli stats'))
                         run.hung = True
